@@ -158,7 +158,8 @@ def run_shard(histories, tier, sub_seed):
                 else:
                     if o1.ok or o2.ok:
                         res.violation(dict(shape, symptom="invalid-data-accepted", one=o1.brief(), two=o2.brief()), wit)
-                    elif o1.cls != o2.cls and not (subject in w.model.bound):
+                    elif (o1.cls != o2.cls or (o1.cls == "mismatch" and o1.exc_name != o2.exc_name)) and \
+                            not (subject in w.model.bound):
                         res.violation(dict(shape, symptom="error-kind-differs", one=o1.brief(), two=o2.brief()), wit)
                     for side, (a, st) in (("one", (a1, s1)), ("two", (a2, s2))):
                         if subject not in w.model.bound and subject in a.pid_refs:
